@@ -23,6 +23,9 @@ RULE = (
 ASSUMPTIONS = [
     "Cases where qp.ctrl may or may not keep its argument's base as an operand object (custom controlled classes / "
     "nested-control flattening) while that base is still queued in the target context are rejected as ambiguous.",
+    "Likewise rejected: re-queuing (apply / queue()) a copy made by qp.apply whose original operands are still queued in "
+    "the target context; copies of legacy wrappers own copied operands, copies of Operator2 wrappers share them, and "
+    "no documentation says whether such an operand is dequeued.",
     "lazy=False is exercised only through the documented flattening of prod/sum/s_prod (also reached via @, +, *).",
 ]
 BUDGET = {"quick": {"examples": 1500}, "thorough": {"examples": 100000, "shards": 16}}
@@ -49,7 +52,7 @@ POWS = [2, -1, 0.5, 3]
 SCAL = [2.0, -1.0, 0.5, 1.0]
 
 
-def _prim():
+def _prim(gates=False):
     def mk(name):
         npar, nw, _ = PRIMS[name]
         return st.tuples(st.lists(ANG, min_size=npar, max_size=npar), st.permutations(WIRES)).map(
@@ -65,13 +68,15 @@ def _prim():
             lambda t: {"k": "op", "op": "QubitUnitary", "p": [{"U": t[0], "n": 1}], "w": list(t[1])[:1]}),
         st.permutations(WIRES).map(lambda w: {"k": "op", "op": "BasisState", "p": [[1, 0]], "w": list(w)[:2]}),
     ]
+    if gates:
+        return st.sampled_from(sorted(PRIMS)).flatmap(mk)
     return st.one_of(st.sampled_from(sorted(PRIMS)).flatmap(mk), st.sampled_from(sorted(PRIMS)).flatmap(mk), *special)
 
 
-def _wrap(pool):
+def _wrap(pool, gates=False):
     return st.tuples(st.sampled_from(pool), st.lists(REF, min_size=3, max_size=3), st.integers(2, 3),
                      st.sampled_from(POWS), st.sampled_from(SCAL)).map(
-        lambda t: {"k": "wrap", "f": t[0], "args": t[1], "n": t[2], "z": t[3], "c": t[4]})
+        lambda t: {"k": "wrap", "f": t[0], "args": t[1], "n": t[2], "z": t[3], "c": t[4], "g": gates})
 
 
 def _meas():
@@ -81,7 +86,7 @@ def _meas():
 
 
 @st.composite
-def _block(draw, budget, depth, fn_body=False, in_ctx=True):
+def _block(draw, budget, depth, fn_body=False, in_stop=False, tail_meas=False, in_try=False, gates=False):
     """A list of statements; `budget` is a one-element list holding the remaining node count."""
     out = []
     n = draw(st.integers(1, 7))
@@ -92,39 +97,46 @@ def _block(draw, budget, depth, fn_body=False, in_ctx=True):
         r = draw(st.integers(0, 99))
         if fn_body:
             if r < 50:
-                out.append(draw(_prim()))
+                out.append(draw(_prim(gates)))
             elif r < 80:
-                out.append(draw(_wrap(GATE_WRAPS)))
-            elif r < 90:
+                out.append(draw(_wrap(GATE_WRAPS, gates)))
+            elif r < 90 and not (in_stop and r < 88):
                 out.append({"k": "apply", "arg": draw(REF), "ctx": None})
+            elif r < 90:
+                out.append(draw(_prim(gates)))
             else:
-                out.append({"k": "stop", "body": draw(_block(budget, depth + 1, fn_body=True))} if depth < 4 else draw(_prim()))
+                out.append({"k": "stop", "body": draw(_block(budget, depth + 1, fn_body=True, in_stop=True, gates=gates))}
+                           if depth < 4 else draw(_prim(gates)))
             continue
         if r < 30:
             out.append(draw(_prim()))
         elif r < 55:
             out.append(draw(_wrap(WRAPS)))
-        elif r < 63:
+        elif r < 59:
             out.append(draw(_meas()))
+        elif r < 63 or (in_stop and r < 71):
+            out.append(draw(_wrap(WRAPS)))
         elif r < 73:
             out.append({"k": "apply", "arg": draw(REF), "ctx": draw(st.sampled_from([None, None, None, 0, 1, 2]))})
         elif r < 76:
             out.append({"k": "queue", "arg": draw(REF)})
-        elif r < 78:
+        elif r < 77 or (in_try and r < 82):
             out.append({"k": "raise"})
         elif depth >= 4:
             out.append(draw(_prim()))
         elif r < 86:
             out.append({"k": "with", "ctx": draw(st.sampled_from(["queue", "tape", "tape"])),
-                        "body": draw(_block(budget, depth + 1))})
+                        "body": draw(_block(budget, depth + 1, tail_meas=True, in_try=in_try))})
         elif r < 91:
-            out.append({"k": "stop", "body": draw(_block(budget, depth + 1))})
+            out.append({"k": "stop", "body": draw(_block(budget, depth + 1, in_stop=True, in_try=in_try))})
         elif r < 95:
-            out.append({"k": "try", "body": draw(_block(budget, depth + 1))})
+            out.append({"k": "try", "body": draw(_block(budget, depth + 1, in_stop=in_stop, in_try=True))})
         elif r < 98:
             out.append({"k": "adjfn", "body": draw(_block(budget, depth + 1, fn_body=True))})
         else:
-            out.append({"k": "ctrlfn", "body": draw(_block(budget, depth + 1, fn_body=True))})
+            out.append({"k": "ctrlfn", "body": draw(_block(budget, depth + 1, fn_body=True, gates=True))})
+    if tail_meas and draw(st.integers(0, 9)) < 4:
+        out += draw(st.lists(_meas(), min_size=1, max_size=2))
     return out
 
 
@@ -138,6 +150,8 @@ def _program(draw, size):
     body = draw(_block(budget, 0))
     if draw(st.booleans()) and budget[0] > 0:
         body = body + draw(_block(budget, 0))
+    if draw(st.integers(0, 9)) < 4:
+        body = body + draw(st.lists(_meas(), min_size=1, max_size=2))
     return {"pre": pre, "body": body}
 
 
@@ -198,7 +212,7 @@ def flags_for(s, arg_flags=()):
 
 
 def arg_pred(s):
-    if s["k"] == "wrap" and s["f"] == "ctrl":
+    if s["k"] == "wrap" and (s["f"] == "ctrl" or s.get("g")):
         return lambda v: "gate" in v[2]
     if s["k"] == "meas" and s["mp"] == "probs_op":
         return lambda v: "herm" in v[2]
@@ -478,7 +492,7 @@ class Model:
         o = self.objs[oid]
         for m in o["maybe"]:
             if m in items and m not in o["ops"] and m not in extra:
-                raise Reject("ambiguous: ctrl result may or may not keep a still-queued base as operand")
+                raise Reject("ambiguous: a possibly shared operand (ctrl result / copy made by apply) is still queued in the target")
         for x in list(o["ops"]) + list(extra):
             if x in items:
                 items.remove(x)
@@ -499,6 +513,21 @@ class Model:
             if any(x in self.ctx[c]["items"] for x in list(operands) + list(args)):
                 self.stats["outer_kept"] += 1
         return oid
+
+    def shadow(self, oid):
+        o = self.objs[oid]
+        return self.new_obj(o["term"], o["kind"], [self.shadow(x) for x in o["ops"]], o["flags"], ())
+
+    def desc(self, oid):
+        out = []
+        todo = [oid]
+        while todo:
+            o = self.objs[todo.pop()]
+            for x in o["ops"] + o["maybe"]:
+                if x not in out:
+                    out.append(x)
+                    todo.append(x)
+        return out
 
     # ---- statements
     def block(self, stmts):
@@ -590,7 +619,9 @@ class Model:
             if s["ctx"] is not None and withs:
                 target = withs[s["ctx"] % len(withs)]
             o = self.objs[oid]
-            new = self.new_obj(o["term"], o["kind"], o["ops"], o["flags"], o["maybe"])
+            # the copy owns copies of its operands (legacy wrappers) or shares them (Operator2 wrappers): whether an
+            # operand of the original that is still queued in the target gets removed is not specified -> `maybe`
+            new = self.new_obj(o["term"], o["kind"], [self.shadow(x) for x in o["ops"]], o["flags"], self.desc(oid))
             self.enqueue(new, target)
             self.copies.append((oid, new))
             self.stats["apply"] += 1
